@@ -33,6 +33,8 @@ pub fn child(args: &[String]) -> i32 {
     match args.get(0).map(|s| s.as_str()) {
         Some("c10debug") => c10::debug(args[1].parse().unwrap(), args[2].parse().unwrap()),
         Some("c10parry") => c10::debug_parry(),
+        Some("c05debug") => c05::debug(&args[1]),
+        Some("c05debug2") => c05::debug2(&args[1]),
         Some("c10tri") => c10::debug_tri(),
         Some("c10scale") => c10::debug_scale(),
         _ => 2,
